@@ -122,6 +122,11 @@ type G struct {
 	wdesc   string
 	pending *PanicV // raise when resumed
 	name    string
+	// stall exploration: after stallAfter completed synchronisation
+	// operations the goroutine runs only when nothing else can
+	stallAfter int
+	syncOps    int
+	stalled    bool
 }
 
 type Timer struct {
@@ -334,7 +339,7 @@ func errStringPtrType(p *Program) types.Type {
 // ---------- goroutines / frames ----------
 
 func (x *Exec) newG(name string) *G {
-	g := &G{id: len(x.gs), name: name}
+	g := &G{id: len(x.gs), name: name, stallAfter: -1}
 	x.gs = append(x.gs, g)
 	return g
 }
